@@ -152,6 +152,10 @@ class CfgGen:
                 a = self.action(depth + 1, 'nested', nowait=waited)
                 if a.startswith('(tap-hold') or a.startswith('(tap-dance'):
                     waited = True
+                # transparent items nested in a multi of a layer cell (each continues the search below the layer of the multi),
+                # also several of them and inside an inner multi
+                if ctx == 'layer' and 'trans' in self.kinds and rng.random() < 0.3:
+                    a = rng.choice(['_', '_', '(multi %s _)' % rng.choice(['lsft', 'lctl', 'x'])])
                 parts.append(a)
             return '(multi %s)' % ' '.join(parts)
         if k == 'xx':
